@@ -856,9 +856,12 @@ class Check(PropertyCheck):
             if r.get("o") not in ALLOWED_OUTCOMES:
                 fails.append(f"totality: parsing ended with {r.get('type')} instead of None/ClientHello/ValueError"); break
         # "the SNI, ALPN offers, cipher suites and extensions it reports equal those an independent TLS parser reads"
+        # (expected values come from the case's inputs — the spec / the independent reader — never from another
+        #  observation of the implementation; every way the bytes were delivered is compared with them directly)
         if truth is not None:
-            tf = truth_fails(truth, obs["whole"][0])
-            if tf: fails.append("truth: " + "; ".join(tf))
+            for tag, r in self.truth_views(obs):
+                tf = truth_fails(truth, r)
+                if tf: fails.append(f"truth{tag}: " + "; ".join(tf))
         # "Splitting a valid ClientHello across any number of TLS records and TCP segments changes none of these results"
         if obs["inc"] != obs["whole"][0]:
             fails.append(f"segmentation: fed in segments {case.get('cuts')} gives {str(obs['inc'])[:150]}, in one piece {str(obs['whole'][0])[:150]}")
@@ -871,19 +874,29 @@ class Check(PropertyCheck):
             fails.append(f"records: chunking {case.get('chunks')} gives {str(obs['whole'][0])[:120]}, chunking {case.get('chunks_b')} gives {str(obs['whole'][1])[:120]}")
         return fails
 
+    @staticmethod
+    def truth_views(obs):
+        """the observations that must equal the ground truth: whole input, fed in segments, through the layer"""
+        out = [("", obs["whole"][0]), ("(segments)", obs["inc"])]
+        if "layer" in obs: out.append(("(layer)", obs["layer"]))
+        return out
+
     def known(self, case, obs, failure):
         """F-C13a exactly: input class = DTLS ClientHello (built/real) in >= 2 handshake fragments whose single-fragment
         form IS read correctly; failure = the ground-truth clause ("truth:"), and what mitmproxy returned is precisely
         what the recorded defect predicts: the result of taking the FIRST fragment alone for the whole message."""
         if case.get("kind") not in ("built", "real") or not case.get("dtls"): return None
-        if not failure.startswith("truth: "): return None
+        view = {f"truth{tag}: ": r for tag, r in self.truth_views(obs)}
+        clause = next((c for c in view if failure.startswith(c)), None)
+        if clause is None: return None                               # only the ground-truth clause is the recorded failure
+        got = view[clause]
         if "unfrag" not in obs or "firstfrag" not in obs: return None
         if self.n_frags(case) < 2: return None
         _, _, truth = self.resolve(case)
         if truth_fails(truth, obs["unfrag"]): return None            # the hello itself is not read correctly: something else
-        if obs["whole"][0] != obs["firstfrag"]: return None          # not "first fragment taken for the message"
-        if obs["whole"][0].get("o") not in ("invalid", "hello"): return None
-        if failure != "truth: " + "; ".join(truth_fails(truth, obs["whole"][0])): return None
+        if got != obs["firstfrag"]: return None                      # not "first fragment taken for the message"
+        if got.get("o") not in ("invalid", "hello"): return None
+        if failure != clause + "; ".join(truth_fails(truth, got)): return None
         return "F-C13a"
 
     def known_selftest(self):
@@ -905,6 +918,9 @@ class Check(PropertyCheck):
         f_trunc = "truth: " + "; ".join(truth_fails(truth, trunc))
         triples = [
             (w, obs(inv), f_inv, "F-C13a"),                              # the recorded witness
+            (w, obs(inv), f_inv.replace("truth: ", "truth(segments): "), "F-C13a"),   # same clause, segment-wise delivery
+            (w, dict(obs(inv), inc={"o": "incomplete"}), "truth(segments): outcome incomplete ()", None),   # segments differ from first-fragment
+            (w, obs(inv), f_inv.replace("truth: ", "truth(layer): "), None),              # no layer observation in this obs
             (w, obs(trunc, firstfrag=trunc), f_trunc, "F-C13a"),         # "…or reads a truncated hello"
             # (a) same input class, different failure
             (w, obs(inv), "segmentation: fed in segments [5] gives {'o': 'invalid'}, in one piece {'o': 'hello'}", None),
